@@ -59,6 +59,10 @@ CHECKS = {
                 text="Proved from the real source: FunctionType / PolyFuncType.with_runtime_reqs keep the rows and parameters, keep every old requirement, add the new ones, without duplicates (a genuine ordering defect was repaired); Extension.add_op_def / add_type_def / add_extension_value make the extension the owner, hold the definition under its name, keep every other definition, and add_op_def makes the signature name the extension; ExplicitBound / FromParamsBound / TypeDef / OpDef / ExtensionValue decode back with the same name, description, parameters, bound kind and data, binary flag, scheme (parameters, rows) and value, owned by and held in the target extension (encode/decode lemmas on the real bodies with the C05 induction hypotheses). Whole extensions (the three dictionaries, version incl. pre-release tags, requirements, misc data; document fixed point under several PYTHONHASHSEEDs) are decided by a bounded run; 'bundled definition files are byte for byte the published ones, each loads, the typed helpers and registered operations denote definitions that exist with matching parameters' is a closed ground statement decided by evaluation on every run; hence category other.",
                 note=TRUST + "; constituent codecs as induction hypotheses (C05); extensions without lowering functions; OpDefSig invariant assumed in rt_OpDef.",
                 technique="contract-based deductive verification (postconditions over the definition dictionaries, encode/decode code lemmas), z3 cross-checked + labelled bounded round-trip run + ground decision of the closed statements about the bundled files"),
+    "C11": dict(cat="other", design="5/C11",
+                text="Proved from the real source for all registries and expressions: an opaque type (Opaque.resolve) and an opaque operation (Custom.resolve) are replaced by their definition-backed form exactly when the registry holds an extension of that name containing a definition of that name - the definition being the registry's own object - with type arguments / signature rows / arguments resolved position by position, and are returned untouched (the same object) otherwise; Sum, FunctionType, PolyFuncType, TypeTypeArg and SequenceArg resolve position by position keeping shape, runtime requirements and parameters; UnitSum and every class that does not override resolve return themselves (the closed world of overrides is read from the AST on every run); registry and extension lookups raise their NotFound exceptions exactly for absent names. Invisibility on the wire and in the exported model, equality of type bounds and port types, idempotence, and Hugr.resolve_extensions over loaded HUGRs are decided by a bounded run on the real stack (220 expressions with opaque types at every kind of position x 4 registries) - not proved; hence category other. Two genuine defects were repaired.",
+                note=TRUST + "; interface contracts Type.resolve / TypeArg.resolve name constituent results (ghost definitions).",
+                technique="contract-based deductive verification with modular structural induction (interface contract + per-class refinement), z3 cross-checked + labelled bounded run for the wire/model/idempotence clauses"),
     "C04": dict(cat="other", design="5/C04",
                 text="The graph store is verified against a sequence-per-port view: sub-offset allocation, add_link (the link is appended exactly once to the sequences of both ports; BiMap inverse and contiguity invariants preserved; counts = max), add_order_link (idempotent; order ports are not counted), linked_ports / has_link / order-link listings / outgoing_links / incoming_links as functions of the view (one entry per port whatever the rest of the graph holds), lookup (KeyError exactly for non-live indices), iteration (live indices ascending), counts, children, add_node / add_const (new index was free, every other node keeps index and data), _update_port_count. delete_link, delete_node and insert_hugr are decided by a bounded model-based run of the real code against the sequential multigraph model of the statement (all queries compared after every operation) - not proved; hence category other. Three genuine defects were found and repaired.",
                 note=TRUST + "; BiMap through its C18 contracts; ghost cnt defined by an assumed instance; generator functions eager; _add_node verified in the thorough tier only.",
